@@ -31,6 +31,8 @@ type EP struct {
 	Location string `json:"location"`
 	Index    int    `json:"index"`
 	Default  *bool  `json:"is_default,omitempty"`
+	// Response is the optional ResponseLocation attribute; an ACS response never goes there.
+	Response *string `json:"response_location,omitempty"`
 }
 
 // ReqAttr is one RequestedAttribute of an AttributeConsumingService.
@@ -38,6 +40,9 @@ type ReqAttr struct {
 	Name         string `json:"name"`
 	FriendlyName string `json:"friendly_name,omitempty"`
 	NameFormat   string `json:"name_format,omitempty"`
+	// Values are AttributeValue children of the RequestedAttribute ("values of interest" of the SP):
+	// metadata content, never a value of the authenticated session.
+	Values []string `json:"values,omitempty"`
 }
 
 // AttrSvc is one AttributeConsumingService.
@@ -63,6 +68,9 @@ type Case struct {
 	SkewMs  int64          `json:"skew_ms"`
 	DelayMs int64          `json:"delay_ms"`
 	SP      SPMeta         `json:"sp"`
+	// SPThen, when set, replaces the registration (same entity ID, same registry value, same IdentityProvider
+	// value) between the first and the second response; the second is judged against SPThen.
+	SPThen *SPMeta `json:"sp_then,omitempty"`
 
 	Initiated bool   `json:"initiated,omitempty"`
 	Method    string `json:"method,omitempty"`
@@ -133,23 +141,13 @@ func genSession(t *rapid.T, marker string) idpkit.Sess {
 
 var requestable = []string{"email", "e-mail", "EmailAddress", "emailaddress", "name", "cn", "common name", "givenname", "first_name", "surname", "familyname", "uid", "user", "userid", "groups", "phone", ""}
 
-func gen(t *rapid.T) Case {
-	c := Case{}
-	c.IDP = idpkit.IDPConf{
-		Base:          rapid.SampledFrom([]string{"https://idp.example.com", "https://idp.example.com:8443/auth"}).Draw(t, "base"),
-		Signer:        rapid.Bool().Draw(t, "signer"),
-		StaleKey:      rapid.IntRange(0, 2).Draw(t, "stalekey") == 0,
-		SigMethod:     rapid.SampledFrom(idpkit.RSAMethods).Draw(t, "sigmethod"),
-		Intermediates: rapid.SampledFrom([]int{0, 0, 1, 2}).Draw(t, "intermediates"),
-	}
-	tol := rapid.SampledFrom([][2]int64{{180000, 90000}, {180000, 90000}, {180000, 3600000}, {0, 1000}, {1000, 0}, {60000, 600000}, {1, 1}}).Draw(t, "tolerances")
-	c.SkewMs, c.DelayMs = tol[0], tol[1]
+// metaMarker is contained in every value that only the SP's metadata carries.
+const metaMarker = "qm0metadata"
 
-	pool := []string{"https://sp.example.com/saml/acs", "https://sp.example.com/saml/acs/b", "https://sp.example.com/saml/acs?x=1&y=2", "https://other.example.org/acs"}
-	c.SP = SPMeta{EntityID: rapid.SampledFrom([]string{"https://sp.example.com/saml/metadata", "urn:example:sp", "https://sp.example.com/md?a=1&b=2"}).Draw(t, "entity"),
-		ViaXML: rapid.Bool().Draw(t, "viaXML")}
+func genDescs(t *rapid.T, pool []string) [][]EP {
+	var out [][]EP
 	nd := rapid.SampledFrom([]int{1, 1, 1, 2}).Draw(t, "ndescs")
-	idx := 0
+	idx := rapid.SampledFrom([]int{0, 0, 1, 7}).Draw(t, "first-index")
 	for d := 0; d < nd; d++ {
 		ne := rapid.IntRange(1, 3).Draw(t, "nendpoints")
 		var eps []EP
@@ -165,10 +163,18 @@ func gen(t *rapid.T) Case {
 				b := false
 				e.Default = &b
 			}
+			if rapid.IntRange(0, 2).Draw(t, "responseLocation") == 0 {
+				e.Response = idpkit.P(rapid.SampledFrom(append([]string{"https://status.example.net/saml/return"}, pool...)).Draw(t, "response-location"))
+			}
 			eps = append(eps, e)
 		}
-		c.SP.Descs = append(c.SP.Descs, eps)
+		out = append(out, eps)
 	}
+	return out
+}
+
+func genServices(t *rapid.T) []AttrSvc {
+	var out []AttrSvc
 	ns := rapid.SampledFrom([]int{0, 0, 1, 2}).Draw(t, "nservices")
 	for i := 0; i < ns; i++ {
 		svc := AttrSvc{}
@@ -178,15 +184,40 @@ func gen(t *rapid.T) Case {
 		}
 		na := rapid.IntRange(0, 4).Draw(t, "nreqattrs")
 		for k := 0; k < na; k++ {
-			svc.Attrs = append(svc.Attrs, ReqAttr{
+			a := ReqAttr{
 				Name:         rapid.SampledFrom(requestable).Draw(t, "reqattr"),
 				FriendlyName: rapid.SampledFrom([]string{"", "fn"}).Draw(t, "reqattr-friendly"),
 				NameFormat: rapid.SampledFrom([]string{"urn:oasis:names:tc:SAML:2.0:attrname-format:basic", "urn:oasis:names:tc:SAML:2.0:attrname-format:unspecified",
 					"urn:oasis:names:tc:SAML:2.0:attrname-format:uri", ""}).Draw(t, "reqattr-format"),
-			})
+			}
+			for v := rapid.SampledFrom([]int{0, 0, 1, 2}).Draw(t, "reqattr-nvalues"); v > 0; v-- {
+				a.Values = append(a.Values, metaMarker+"-"+rapid.SampledFrom([]string{"admin@sp.example.com", "root", "operator", "", "staff"}).Draw(t, "reqattr-value"))
+			}
+			svc.Attrs = append(svc.Attrs, a)
 		}
-		c.SP.Services = append(c.SP.Services, svc)
+		out = append(out, svc)
 	}
+	return out
+}
+
+func gen(t *rapid.T) Case {
+	c := Case{}
+	c.IDP = idpkit.IDPConf{
+		Base:          rapid.SampledFrom([]string{"https://idp.example.com", "https://idp.example.com:8443/auth"}).Draw(t, "base"),
+		Signer:        rapid.Bool().Draw(t, "signer"),
+		StaleKey:      rapid.IntRange(0, 2).Draw(t, "stalekey") == 0,
+		SigMethod:     rapid.SampledFrom(idpkit.RSAMethods).Draw(t, "sigmethod"),
+		Intermediates: rapid.SampledFrom([]int{0, 0, 1, 2}).Draw(t, "intermediates"),
+	}.WithExtras(rapid.Bool().Draw(t, "logoutURL"), rapid.Bool().Draw(t, "loginURL"), rapid.SampledFrom([]int{0, 0, 1, 8760}).Draw(t, "validHours"),
+		rapid.IntRange(0, 2).Draw(t, "template") == 0, rapid.IntRange(0, 2).Draw(t, "maker") == 0)
+	tol := rapid.SampledFrom([][2]int64{{180000, 90000}, {180000, 90000}, {180000, 3600000}, {0, 1000}, {1000, 0}, {60000, 600000}, {1, 1}}).Draw(t, "tolerances")
+	c.SkewMs, c.DelayMs = tol[0], tol[1]
+
+	pool := []string{"https://sp.example.com/saml/acs", "https://sp.example.com/saml/acs/b", "https://sp.example.com/saml/acs?x=1&y=2", "https://other.example.org/acs"}
+	c.SP = SPMeta{EntityID: rapid.SampledFrom([]string{"https://sp.example.com/saml/metadata", "urn:example:sp", "https://sp.example.com/md?a=1&b=2"}).Draw(t, "entity"),
+		ViaXML: rapid.Bool().Draw(t, "viaXML")}
+	c.SP.Descs = genDescs(t, pool)
+	c.SP.Services = genServices(t)
 	c.SP.KeyUse = rapid.SampledFrom([]string{"", "", "encryption", "encryption", "unspecified", "signing", "both"}).Draw(t, "keyuse")
 	c.SP.KeyName = rapid.SampledFrom([]string{"sp", "sp2"}).Draw(t, "keyname")
 
@@ -237,6 +268,13 @@ func gen(t *rapid.T) Case {
 			c.ClockMs = rapid.Int64Range(0, max64(c.DelayMs-1, 0)).Draw(t, "age")
 		}
 	}
+	if rapid.IntRange(0, 2).Draw(t, "re-register") == 0 {
+		// the same SP registers again with other endpoints / keys / requested attributes before the second response
+		then := SPMeta{EntityID: c.SP.EntityID, ViaXML: rapid.Bool().Draw(t, "then-viaXML"), Descs: genDescs(t, pool), Services: genServices(t),
+			KeyUse:  rapid.SampledFrom([]string{"", "encryption", "unspecified", "signing", "both"}).Draw(t, "then-keyuse"),
+			KeyName: rapid.SampledFrom([]string{"sp", "sp2"}).Draw(t, "then-keyname")}
+		c.SPThen = &then
+	}
 	c.Markers = [2]string{"qa" + rapid.StringMatching(`[a-z0-9]{9}`).Draw(t, "markerA"), "qb" + rapid.StringMatching(`[a-z0-9]{9}`).Draw(t, "markerB")}
 	c.Sessions = [2]idpkit.Sess{genSession(t, c.Markers[0]), genSession(t, c.Markers[1])}
 	return c
@@ -281,6 +319,10 @@ func (sp SPMeta) descriptor() (*saml.EntityDescriptor, error) {
 				b := *e.Default
 				ie.IsDefault = &b
 			}
+			if e.Response != nil {
+				r := *e.Response
+				ie.ResponseLocation = &r
+			}
 			desc.AssertionConsumerServices = append(desc.AssertionConsumerServices, ie)
 		}
 		for i, svc := range sp.Services {
@@ -290,7 +332,11 @@ func (sp SPMeta) descriptor() (*saml.EntityDescriptor, error) {
 				s.IsDefault = &b
 			}
 			for _, a := range svc.Attrs {
-				s.RequestedAttributes = append(s.RequestedAttributes, saml.RequestedAttribute{Attribute: saml.Attribute{Name: a.Name, FriendlyName: a.FriendlyName, NameFormat: a.NameFormat}})
+				ra := saml.RequestedAttribute{Attribute: saml.Attribute{Name: a.Name, FriendlyName: a.FriendlyName, NameFormat: a.NameFormat}}
+				for _, v := range a.Values {
+					ra.Values = append(ra.Values, saml.AttributeValue{Type: "xs:string", Value: v})
+				}
+				s.RequestedAttributes = append(s.RequestedAttributes, ra)
 			}
 			desc.AttributeConsumingServices = append(desc.AttributeConsumingServices, s)
 		}
@@ -360,7 +406,7 @@ func contains(list []string, s string) bool {
 }
 
 // judge checks one emitted page against the session it was made for.
-func (c Case) judge(o outcome, md *saml.EntityDescriptor, reqID string, me, other int, now time.Time) string {
+func (c Case) judge(o outcome, sp SPMeta, md *saml.EntityDescriptor, reqID string, me, other int, now time.Time) string {
 	form, err := idpkit.ReadForm(o.body)
 	if err != nil {
 		return fmt.Sprintf("status 200 but no form: %v", err)
@@ -394,6 +440,11 @@ func (c Case) judge(o outcome, md *saml.EntityDescriptor, reqID string, me, othe
 	if form.Action != loc {
 		return fmt.Sprintf("form action %q is not the selected registered Location %q", form.Action, loc)
 	}
+	// the same from the request and the registered metadata alone (nothing the implementation stored)
+	if allowed := idpkit.AllowedTargets(md, idxp, urlp, c.Initiated); !idpkit.InSet(form.Action, allowed...) {
+		return fmt.Sprintf("form action %q is not the Location of a registered HTTP-POST endpoint the request admits (admitted %q)", form.Action, allowed)
+	}
+	loc = form.Action
 
 	root, err := xmlw.Parse(raw)
 	if err != nil {
@@ -452,16 +503,16 @@ func (c Case) judge(o outcome, md *saml.EntityDescriptor, reqID string, me, othe
 	var as_sig idpkit.SigInfo
 	var opened []byte
 	if len(encd) == 1 {
-		if !c.SP.encrypts() {
+		if !sp.encrypts() {
 			return "assertion encrypted although the SP publishes no encryption key"
 		}
-		pt, err := idpkit.OpenEncrypted(encd[0], fix.Get(c.SP.KeyName).RSA())
+		pt, err := idpkit.OpenEncrypted(encd[0], fix.Get(sp.KeyName).RSA())
 		if err != nil {
 			return fmt.Sprintf("EncryptedAssertion does not open with the SP key (stdlib reference): %v", err)
 		}
 		opened = pt
 		// second, independently written reference (internal/refenc): both openers must agree
-		if pt2, err2 := refOpen(raw, fix.Get(c.SP.KeyName).RSA()); err2 != nil || string(pt2) != string(pt) {
+		if pt2, err2 := refOpen(raw, fix.Get(sp.KeyName).RSA()); err2 != nil || string(pt2) != string(pt) {
 			return fmt.Sprintf("harness references disagree on the EncryptedAssertion plaintext (refenc: %v, %d vs %d octets)", err2, len(pt2), len(pt))
 		}
 		as, err = xmlw.Parse(pt)
@@ -556,6 +607,12 @@ func (c Case) judge(o outcome, md *saml.EntityDescriptor, reqID string, me, othe
 			return fmt.Sprintf("attribute value %q is not a field of the authenticated session", v.Text)
 		}
 	}
+	// nothing the SP's metadata merely lists as values of interest is asserted about the user
+	for _, hay := range [][]byte{raw, opened} {
+		if strings.Contains(string(hay), metaMarker) {
+			return "a value that only occurs in the SP's metadata (RequestedAttribute/AttributeValue) appears in the response"
+		}
+	}
 	// nothing of the other session anywhere in what was emitted
 	om := c.Markers[other]
 	for _, hay := range [][]byte{o.body, raw, opened} {
@@ -643,6 +700,14 @@ func check(c Case) (res pbt.Result) {
 	}
 	if len(c.SP.Services) > 0 {
 		cl = append(cl, "attr-services")
+		for _, svc := range c.SP.Services {
+			for _, a := range svc.Attrs {
+				if len(a.Values) > 0 {
+					cl = append(cl, "attr-services:requested-attribute-with-values")
+					break
+				}
+			}
+		}
 	}
 	seen := map[string]bool{}
 	nonPlain := false
@@ -662,7 +727,19 @@ func check(c Case) (res pbt.Result) {
 	res.Classes = cl
 	res.NonTrivial = nonPlain || c.IDP.Signer || c.IDP.SigMethod != "" || (!c.Initiated && c.ClockMs <= c.SkewMs && c.ClockMs != 0)
 
+	sp := c.SP
 	for i := 0; i < 2; i++ {
+		if i == 1 && c.SPThen != nil {
+			sp = *c.SPThen
+			sp.EntityID = c.SP.EntityID
+			md, err = sp.descriptor()
+			if err != nil {
+				return pbt.Result{Skip: true}
+			}
+			reg.M[sp.EntityID] = md
+			res.Classes = append(res.Classes, "sequence:re-registered")
+			res.NonTrivial = true
+		}
 		sessions.S = c.Sessions[i].Session(now.Add(-time.Minute))
 		reqID := fmt.Sprintf("%s-%d", c.ReqID, i)
 		idp.Logger.(*idpkit.Quiet).Lines = nil
@@ -700,13 +777,16 @@ func check(c Case) (res pbt.Result) {
 					res.Classes = append(res.Classes, "selected:not-request-url-or-not-first")
 				}
 			}
+			if o.sel != nil && o.sel.ResponseLocation != nil {
+				res.Classes = append(res.Classes, "selected:has-response-location")
+			}
 			if len(md.SPSSODescriptors) > 0 && c.SP.encrypts() {
 				res.Classes = append(res.Classes, "assertion:encrypted")
 			} else {
 				res.Classes = append(res.Classes, "assertion:plain")
 			}
 		}
-		if msg := c.judge(o, md, reqID, i, 1-i, now); msg != "" {
+		if msg := c.judge(o, sp, md, reqID, i, 1-i, now); msg != "" {
 			res.Err = fmt.Sprintf("response %d (session marker %s): %s", i, c.Markers[i], msg)
 			res.NonTrivial = true
 			return res
@@ -752,22 +832,87 @@ func enumConfigs(_ string, emit func(Case)) {
 	}
 }
 
+// enumMetadataExtras: registered metadata that carries what ordinary SP metadata does not - ResponseLocation on
+// ACS endpoints, RequestedAttributes listing values of interest - crossed with every way of selecting the
+// endpoint, encryption on/off, and a re-registration between the two responses.
+func enumMetadataExtras(_ string, emit func(Case)) {
+	locA, locB, ret := "https://sp.example.com/saml/acs", "https://sp.example.com/saml/acs-eu", "https://status.sp.example.com/saml/return"
+	sessA := idpkit.Sess{ID: "sa", Index: "ia", NameID: "qaaaaaaaaaaa-alice", UserName: "qaaaaaaaaaaa-u", Email: "qaaaaaaaaaaa@example.com", CommonName: "qaaaaaaaaaaa Alice", Surname: "qaaaaaaaaaaa-sn", GivenName: "qaaaaaaaaaaa-gn"}
+	sessB := idpkit.Sess{ID: "sb", Index: "ib", NameID: "qbbbbbbbbbbb-bob", UserName: "qbbbbbbbbbbb-u", Email: "qbbbbbbbbbbb@example.com"}
+	basic := "urn:oasis:names:tc:SAML:2.0:attrname-format:basic"
+	svc := func(values bool) []AttrSvc {
+		var v1, v2 []string
+		if values {
+			v1, v2 = []string{metaMarker + "-admin@sp.example.com"}, []string{metaMarker + "-root", metaMarker + "-operator"}
+		}
+		return []AttrSvc{{Attrs: []ReqAttr{{Name: "email", FriendlyName: "E-mail", NameFormat: basic, Values: v1}, {Name: "uid", NameFormat: basic, Values: v2},
+			{Name: "cn", NameFormat: "urn:oasis:names:tc:SAML:2.0:attrname-format:unspecified", Values: v1}, {Name: "surname", NameFormat: basic, Values: v2}, {Name: "first_name", NameFormat: basic, Values: v1}}}}
+	}
+	for _, respOn := range []int{-1, 0, 1, 2} { // which endpoint(s) carry a ResponseLocation: none, first, second, both
+		for _, values := range []bool{false, true} {
+			for _, use := range []string{"", "encryption"} {
+				for _, viaXML := range []bool{false, true} {
+					for _, how := range []string{"initiated", "none", "url-a", "url-b", "index-b", "index-b+url-a"} {
+						for _, rereg := range []bool{false, true} {
+							a := EP{Binding: post, Location: locA, Index: 0}
+							b := EP{Binding: post, Location: locB, Index: 1}
+							if respOn == 0 || respOn == 2 {
+								a.Response = idpkit.P(ret)
+							}
+							if respOn == 1 || respOn == 2 {
+								b.Response = idpkit.P(locA)
+							}
+							c := Case{IDP: idpkit.IDPConf{Base: "https://idp.example.com", Logout: true}, SkewMs: 180000, DelayMs: 90000,
+								SP:    SPMeta{EntityID: "https://sp.example.com/saml/metadata", KeyUse: use, KeyName: "sp", ViaXML: viaXML, Descs: [][]EP{{a, b}}, Services: svc(values)},
+								ReqID: "id-enum", Relay: "rs", ClockMs: 1000,
+								Sessions: [2]idpkit.Sess{sessA, sessB}, Markers: [2]string{"qaaaaaaaaaaa", "qbbbbbbbbbbb"}}
+							if rereg {
+								// the endpoints swap roles, the requested attributes gain/lose their values
+								c.SPThen = &SPMeta{EntityID: c.SP.EntityID, KeyUse: use, KeyName: "sp2", ViaXML: !viaXML, Descs: [][]EP{{b, a}}, Services: svc(!values)}
+							}
+							switch how {
+							case "initiated":
+								c.Initiated = true
+							case "url-a":
+								c.ACSURL = idpkit.P(locA)
+							case "url-b":
+								c.ACSURL = idpkit.P(locB)
+							case "index-b":
+								c.ACSIndex = idpkit.P("1")
+							case "index-b+url-a":
+								c.ACSIndex, c.ACSURL = idpkit.P("1"), idpkit.P(locA)
+							}
+							if !c.Initiated {
+								c.Method = "POST"
+							}
+							emit(c)
+						}
+					}
+				}
+			}
+		}
+	}
+}
+
 var prop = &pbt.Prop[Case]{
 	ID: "C06",
 	Rule: "cases: two consecutive validated requests (GET-deflate / POST; ACS named by URL, by index, by both, or not at all) or IdP-initiated launches served by one IdP for two sessions with disjoint markers " +
 		"(all strings from the XML-1.0 classes) x registered SP metadata (1-2 descriptors x 1-3 ACS endpoints, attribute-consuming services with requested attributes in each name format, key descriptor none/encryption/unspecified/signing/both) " +
 		"x IdP config (RSA Key or opaque crypto.Signer, default + each RSA signature method, 0-2 intermediates) x (MaxClockSkew, MaxIssueDelay) x clock position relative to the request's IssueInstant; " +
-		"exhaustive: method x key kind x intermediates x key use x flow x clock grid. " +
+		"registered ACS endpoints may carry ResponseLocation, RequestedAttributes may list AttributeValue children (marked, metadata-only values), the IdP configuration fields no clause mentions are varied (LogoutURL, LoginURL, ValidDuration, form template, explicit assertion maker, stale Key beside a Signer), " +
+		"and in a third of the cases the SP is re-registered (other endpoints / keys / requested attributes) on the same registry and IdentityProvider value between the two responses, the second being judged against the new registration; " +
+		"exhaustive: method x key kind x intermediates x key use x flow x clock grid; ResponseLocation x requested-attribute values x encryption x selection mode x re-registration grid. " +
 		"non-trivial: selected endpoint differs from the request's ACS URL or from the first registered endpoint, or a session string is non-ASCII/markup, or the clock is within MaxClockSkew of the request's IssueInstant, or a non-default signature method / external signer is configured. distinct: sha256 of the JSON case.",
 	Gen:   gen,
 	Check: check,
 	Reset: fix.Reset,
-	Enums: []pbt.Enum[Case]{{Name: "config-grid", Each: enumConfigs}},
+	Enums: []pbt.Enum[Case]{{Name: "config-grid", Each: enumConfigs}, {Name: "metadata-extras-grid", Each: enumMetadataExtras}},
 	Assumptions: []string{
 		"the emitted form is read with golang.org/x/net/html, the decoded XML with an own reader on encoding/xml's tokenizer, EncryptedAssertion is opened with a stdlib-only RSA-OAEP/AES-CBC helper and, as cross-check, with internal/refenc",
 		"signatures are verified with goxmldsig (fresh ValidationContext, only the IdP certificate, IdAttribute ID, fake clock at the fixture epoch): the observation point the property names",
 		"instants are generated at millisecond resolution (what the emitted lexical form keeps)",
 		"an error status is a permitted outcome (non-POST endpoint selected); non-vacuity: when an HTTP-POST endpoint was selected the IdP must answer with a form",
+		"the form target is additionally judged against the Locations derived from the request and the registered metadata alone (AllowedTargets); Destination and Recipient must equal the form action",
 		"which endpoint must be selected is judged by the C05 selection oracle; attribute names may come from the SP's requested attributes, attribute values only from the session",
 	},
 }
